@@ -17,8 +17,8 @@ def bounded(tier, seed, fallback_for):
 
 MANIFEST = {
     "category": "exploration",
-    "technique": "bounded stand-in on the real code with independently recomputed expectations (contracts where listed in evidence)",
-    "text": 'Totals, profiles and the folder tree are recomputed independently for every small set of paths in every insertion order (bounded); the arithmetic of LanguageTotals.add, ScanTotals.total_*, make_profile is proved (see C02/C18 evidence).',
-    "note": 'bounded for the folder tree (recursive add_folder/aggregate over a dict-of-folders heap structure); arithmetic pieces are proved elsewhere',
+    "technique": "contracts on the real functions discharged by z3/cvc5 (pyvc); bounded stand-in with independently recomputed expectations for the whole statement",
+    "text": 'Totals, profiles and the folder tree are recomputed independently for every small set of paths in every insertion order (bounded). Discharged for all inputs: Codebase.add_file keeps the representation invariant, registers the file under its path, creates and updates the totals of its language and lists it under its parent folder; LanguageTotals.__init__/add; the arithmetic of ScanTotals.total_* and make_profile is proved under C02/C18.',
+    "note": 'bounded for the folder tree (recursive add_folder/aggregate are assumed summaries)',
     "design_ref": "DESIGN.md §6 C07",
 }
